@@ -82,10 +82,20 @@ def repo_target(kind="stable"):
 
 
 _tool_path = None
+import threading
+_build_lock = threading.Lock()
 
 
 def build_tool():
     """cargo build diplomat-tool from the working tree. Returns binary path."""
+    global _tool_path
+    if _tool_path:
+        return _tool_path
+    with _build_lock:
+        return _build_tool_locked()
+
+
+def _build_tool_locked():
     global _tool_path
     if _tool_path:
         return _tool_path
